@@ -263,6 +263,33 @@ def long_part(rep, rng, runq, todo, quick):
         got = list(zip(Li["id"].to_numpy().tolist(), Li["input_dim_0"].to_numpy().tolist(), Li["values"].to_numpy().tolist()))
         if sorted(got) != sorted(want) or len(got) != len(want):
             rep.violation("irregular long table does not list exactly the observed samples", {"X": C.hexf(X), "mask": mask.astype(int).tolist()})
+        # observation labels that are not 0..n-1 (a selection by an index array; labels given by the user): the table lists the
+        # observations under their labels, and under their positions with reindex=True
+        if n >= 2:
+            from FDApy.representation.functional_data import IrregularFunctionalData
+            from FDApy.representation.argvals import DenseArgvals, IrregularArgvals
+            from FDApy.representation.values import IrregularValues
+            labels = [10 + 7 * k + (k % 2) for k in range(n)]
+            lab = IrregularFunctionalData(
+                IrregularArgvals({labels[k]: DenseArgvals({"input_dim_0": t[mask[k]].copy()}) for k in range(n)}),
+                IrregularValues({labels[k]: X[k][mask[k]].copy() for k in range(n)}))
+            rows = np.array(sorted(set([n - 1, 0] + ([n // 2] if n > 2 else []))))
+            for what, obj, ids in (("user labels", lab, labels), ("index-array selection", irr[rows], [int(r) for r in rows])):
+                src = [int(np.flatnonzero(np.array(labels) == i_)[0]) for i_ in ids] if what == "user labels" else [int(r) for r in rows]
+                for reindex in (False, True):
+                    try:
+                        Lr = obj.to_long(reindex=reindex)
+                    except Exception as e:  # noqa: BLE001
+                        rep.violation(f"irregular to_long(reindex={reindex}) raised {type(e).__name__}: {e} ({what})"[:300],
+                                      {"X": C.hexf(X), "mask": mask.astype(int).tolist(), "labels": ids})
+                        continue
+                    want_r = [((pos if reindex else ids[pos]), t[j], X[k, j]) for pos, k in enumerate(src) for j in range(m) if mask[k, j]]
+                    got_r = list(zip(Lr["id"].to_numpy().tolist(), Lr["input_dim_0"].to_numpy().tolist(), Lr["values"].to_numpy().tolist()))
+                    rep.case(("longirr-labels", what, reindex, X.tobytes(), mask.tobytes()), kind="to_long/irregular-labels")
+                    if sorted(got_r) != sorted(want_r):
+                        rep.violation(f"irregular long table ({what}, reindex={reindex}) does not list the observed samples under the "
+                                      f"{'positions' if reindex else 'labels'} of their observations",
+                                      {"X": C.hexf(X), "mask": mask.astype(int).tolist(), "labels": ids, "reindex": reindex})
 
 
 def csv_part(rep, rng, runq, todo, quick):
